@@ -818,11 +818,17 @@ func runC14(c *Ctx) Verdict {
 		if v, bad := WorldVerdict(l.res, false); bad {
 			v.Detail = fmt.Sprintf("[storage write #%d of op #%d fails] ", f[1], f[0]) + v.Detail
 			v.Shape = shape
-			return v
+			if c.Report(v) {
+				return v
+			}
+			continue
 		}
 		if l.verdict.Class != "" {
 			l.verdict.Shape = shape
-			return l.verdict
+			if c.Report(l.verdict) {
+				return l.verdict
+			}
+			continue
 		}
 		if !l.injected {
 			c.Counters["obs.write_fault_not_reached"]++
@@ -864,15 +870,21 @@ func runC14(c *Ctx) Verdict {
 		if v, bad := WorldVerdict(l2.res, false); bad {
 			v.Detail = fmt.Sprintf("[second life after a crash at storage boundary %d of %d, during op #%d %+v] ", b, base.bounds, l1.done, inflight) + v.Detail
 			v.Shape = shape
-			return v
+			if c.Report(v) {
+				return v
+			}
+			continue
 		}
 		if l2.verdict.Class != "" {
 			l2.verdict.Detail = fmt.Sprintf("[crash at storage boundary %d of %d, during op #%d %+v] ", b, base.bounds, l1.done, inflight) + l2.verdict.Detail
 			l2.verdict.Shape = shape
-			return l2.verdict
+			if c.Report(l2.verdict) {
+				return l2.verdict
+			}
+			continue
 		}
 	}
-	return Pass()
+	return c.Finish()
 }
 
 func minInt(a, b int) int {
